@@ -5,7 +5,7 @@ from functools import partial
 import numpy as onp
 
 from .. import values
-from ..case import Outcome, fail, ok, raised
+from ..case import Outcome, fail, from_autograd, ok, raised
 from ..derivcheck import bucket_of, key_of, primal
 from ..engine import Prop, Test
 from ..templates import TEMPLATES
@@ -153,10 +153,70 @@ def _container_body(case):
     return out
 
 
+def _whole_container_body(case):
+    """A list / tuple argument handed WHOLE to a NumPy function (NumPy accepts sequences wherever it accepts arrays), alone or next to an
+    indexed use in either order: the gradient has the argument's structure (list stays list, nesting kept) - or the call raises."""
+    import autograd
+    import autograd.numpy as anp
+    from autograd.core import vspace
+
+    kind = case.choice(["list", "tuple", "nested_list", "list_of_arrays"])
+    how = case.choice(["sin_sum", "sum", "dot", "norm", "anp_array", "multiply", "stack"])
+    mix = case.int(0, 2)  # 0: whole use only; 1: whole use + indexed use; 2: indexed use + whole use
+    vseed = case.seed()
+    (a, w), _ = values.generic(vseed, [(3,), (3,)], 0.4, 1.6)
+    if kind in ("list", "tuple"):
+        arg = [float(t) for t in a] if kind == "list" else tuple(float(t) for t in a)
+    elif kind == "nested_list":
+        arg = [[float(a[0]), float(a[1])], [float(a[2]), 1.5]]
+        w = onp.array([[0.5, -1.0], [2.0, 0.25]])
+    else:
+        arg = [a * 1.0, a * 0.5]
+        w = onp.stack([w, w * 2.0])
+
+    def whole(v):
+        if how == "sin_sum":
+            return anp.sum(anp.sin(v) * w)
+        if how == "sum":
+            return anp.sum(v)
+        if how == "dot":
+            return anp.sum(anp.dot(anp.ravel(w), anp.ravel(v))) if kind in ("nested_list", "list_of_arrays") else anp.dot(w, v)
+        if how == "norm":
+            return anp.linalg.norm(v)
+        if how == "anp_array":
+            return anp.sum(anp.array(v) * w)
+        if how == "multiply":
+            return anp.sum(anp.multiply(v, w))
+        return anp.sum(anp.stack(v) * w) if kind == "list_of_arrays" else anp.sum(anp.stack([anp.array(v), anp.array(v)]) * 0.5)
+
+    first = (lambda v: v[0][0] if kind == "nested_list" else (anp.sum(v[0]) if kind == "list_of_arrays" else v[0]))
+
+    def f(v):
+        if mix == 0:
+            return whole(v)
+        if mix == 1:
+            return whole(v) + first(v) ** 2
+        return first(v) ** 2 + whole(v)
+
+    sample = {"argument": kind, "how": how, "mix": mix, "vseed": vseed}
+    case.features.update(argument=kind, how=how, mix=mix)
+    try:
+        g = autograd.grad(f)(arg)
+    except Exception as e:
+        if not from_autograd(e) and not isinstance(e, (TypeError, ValueError)):
+            raise
+        return raised(e, "whole_container", sample=sample)
+    if not vspace(g) == vspace(arg):
+        return fail("wrong_space", f"gradient of a {kind} argument passed whole to a NumPy function ({how}) is a {type(g).__name__} in {vspace(g)!r}, "
+                    f"the argument lives in {vspace(arg)!r}", f"C05|whole_container|{how}", sample=sample)
+    return ok(nontrivial=True, key=json.dumps([kind, how, mix]), labels=["whole_container", "how=" + how], sample=sample)
+
+
 def tests():
     out = [Test("space:" + name, partial(_body, t), quick=150 * t.weight, thorough=1200 * t.weight, shard_size=300)
            for name, t in sorted(TEMPLATES.items())]
     out.append(Test("space:containers", _container_body, quick=1500, thorough=15000, shard_size=250))
+    out.append(Test("space:whole_container", _whole_container_body, quick=600, thorough=3000, shard_size=150))
     out += [Test("empty:" + name, partial(_empty_body, t), quick=60 * t.weight, thorough=400 * t.weight, shard_size=300)
             for name, t in sorted(TEMPLATES.items())]
     return out
